@@ -370,7 +370,12 @@ def set_default_doc(param, emit_default_doc=True):
     # if param is None: param = {"doc": "", "typ": "Any"}
     if _param is None or "doc" not in _param:
         return name, _param
-    has_defaults = "Defaults" in _param["doc"] or "defaults" in _param["doc"]
+    has_defaults = (
+        "Defaults" in _param["doc"]
+        or "defaults" in _param["doc"]
+        # every other spelling `extract_default` understands ("Default value is 5", "Default: 5")
+        or any(variant in _param["doc"] for variant in DEFAULTS_TO_VARIANTS)
+    )
 
     if has_defaults and not emit_default_doc:
         # Remove the default text
